@@ -277,10 +277,37 @@ class AndroidRoot(Android):
              ("tools:locale", ["en", "en-US"]),
              ("xmlns:xliff", ["urn:oasis:names:tc:xliff:document:1.2"]),
              ("xmlns:moz", ["http://mozac.org/tools", "http://mozac.org/tools/v2"]),
-             ("locale", ["en", "de"])]
+             ("locale", ["en", "de"]),
+             # values that need XML escaping when the wrapper is written back: (source literal with its quotes, value)
+             ("note", [('"a &amp; b"', "a & b"), ('"x &lt; y &gt; z"', "x < y > z"), ('"say &quot;hi&quot;"', 'say "hi"'),
+                       ("'say \"hi\"'", 'say "hi"'), ('"it\'s"', "it's"), ("'a &apos; \"b\"'", "a ' \"b\""),
+                       ('"line&#10;two&#9;tab"', "line\ntwo\ttab"), ('"\u00e9 \u00fc \u00df \u2014 \u65e5\u672c"', "\u00e9 \u00fc \u00df \u2014 \u65e5\u672c"),
+                       ('"&amp;amp; &#38;lt;"', "&amp; &lt;"), '""']),
+             ("desc", [("'1 &lt; 2 &amp;&amp; \"q\"'", '1 < 2 && "q"'), ('"plain"', "plain"), ('"&#13;cr &#x41;"', "\rcr A")]),
+             # NOT in the random pool (see NRANDOM): an attribute named like the string `alpha` (known finding, directed cases only)
+             ("alpha", ["x", "y"])]
+    NRANDOM = 8                 # attributes rand_root / edit_root draw from
+    CLASH = 8
     HEADERS = ['<?xml version="1.0" encoding="utf-8"?>\n', '<?xml version="1.0" encoding="UTF-8" standalone="no"?>\n', ""]
     XLIFF = '<xliff:g id="x">%1$s</xliff:g> y'
     values = Android.values + [XLIFF]
+
+    def _val(self, a, v):
+        """(source literal, value) of value number v of attribute a"""
+        x = self.ATTRS[a][1][v % len(self.ATTRS[a][1])]
+        if isinstance(x, tuple):
+            return x
+        if x == '""':
+            return ('""', "")
+        return ('"%s"' % x, x)
+
+    def root_src(self, items):
+        """[(name, source literal)] as written into the file (same order and additions as root_attrs)"""
+        src = {}
+        for it in items:
+            if it[0] == "S":
+                src = {self.ATTRS[a][0]: self._val(a, v)[0] for a, v in it[2]}
+        return [(n, src.get(n, '"%s"' % val)) for n, val in self.root_attrs(items)]
 
     def root_attrs(self, items):
         """[(name, value)] of the root as rendered: the declared attributes in their order, plus the namespace
@@ -288,7 +315,7 @@ class AndroidRoot(Android):
         decl = []
         for it in items:
             if it[0] == "S":
-                decl = [(self.ATTRS[a][0], self.ATTRS[a][1][v % len(self.ATTRS[a][1])]) for a, v in it[2]]
+                decl = [(self.ATTRS[a][0], self._val(a, v)[1]) for a, v in it[2]]
         names = [n for n, _ in decl]
         if any(n.startswith("tools:") for n in names) and "xmlns:tools" not in names:
             decl.append(("xmlns:tools", self.ATTRS[0][1][0]))
@@ -302,7 +329,7 @@ class AndroidRoot(Android):
         for it in items:
             if it[0] == "S":
                 hs, rb = it[3] or 0, it[4]
-        out = [self.HEADERS[hs], "<resources", "".join(' %s="%s"' % a for a in self.root_attrs(items)), ">\n", self.blank(rb)]
+        out = [self.HEADERS[hs], "<resources", "".join(" %s=%s" % a for a in self.root_src(items)), ">\n", self.blank(rb)]
         for it in items:
             if it[0] == "E":
                 if it[3] is not None:
@@ -316,7 +343,7 @@ class AndroidRoot(Android):
 
     def rand_root(self, rng):
         k = rng.choice([0, 1, 2, 2, 3, 4])
-        idx = rng.sample(range(len(self.ATTRS)), k)
+        idx = rng.sample(range(self.NRANDOM), k)
         return tuple((a, rng.randrange(6)) for a in idx)
 
     def edit_root(self, rng, items):
@@ -333,7 +360,7 @@ class AndroidRoot(Android):
         elif kind == "drop" and attrs:
             del attrs[rng.randrange(len(attrs))]
         elif kind == "add":
-            free = [a for a in range(len(self.ATTRS)) if a not in {x[0] for x in attrs}]
+            free = [a for a in range(self.NRANDOM) if a not in {x[0] for x in attrs}]
             if free:
                 attrs.insert(rng.randrange(len(attrs) + 1), (rng.choice(free), rng.randrange(6)))
         elif kind == "reorder" and len(attrs) > 1:
@@ -577,7 +604,34 @@ def wrapper_contract(f, items, desc):
         return False
     if desc[0] is not w[0] or desc[-1] is not w[-1] or desc[:n + 2] != w[:n + 2]:
         return False
-    return sorted((e[1], e[3]) for e in w[1:n + 1]) == sorted((repr(a[0]), ' %s="%s"' % a) for a in attrs)
+    return sorted((e[1], attr_of_text(e[3])) for e in w[1:n + 1]) == sorted((repr(a[0]), a) for a in attrs)
+
+
+def attr_of_text(text):
+    """the (name, value) a wrapper text ` name="value"` denotes as XML (expat), or None"""
+    from xml.parsers import expat
+    p = expat.ParserCreate()
+    p.ordered_attributes = True
+    got = []
+    p.StartElementHandler = lambda name, attrs: got.append(attrs)
+    try:
+        p.Parse(("<r%s/>" % text).encode("utf-8"), True)
+    except expat.ExpatError:
+        return None
+    return tuple(got[0]) if got and len(got[0]) == 2 else None
+
+
+CLASH_FINDING = "C15-android-root-attr-key-clash"
+
+
+def root_attr_key_clash(f, versions):
+    """ROOT CAUSE of the known finding: Android, and the NAME of some attribute of a `<resources>` root equals the `name` of
+    some string of some version — DocumentWrapper keys and string keys share one key space in merge_resources"""
+    if not isinstance(f, AndroidRoot):
+        return False
+    names = {n for items in versions for n, _ in f.root_attrs(items)}
+    keys = {f.keys[it[1]] for items in versions for it in items if it[0] == "E"}
+    return bool(names & keys)
 
 
 def classify(v):
@@ -647,6 +701,23 @@ def gen_cases(ctx, f):
         cases.append([W([E(0, 0, b_new), E(1, 0, 1)]), W([E(0, 1, b_old), E(2, 1, b_old), E(1, 1, 0), E(3, 1, b_new)]),
                       W([E(3, 2, 0), E(4, 2, b_new), E(0, 2, b_old), E(5, 2, b_old)])])
         cases.append([W([E(0, 0, b_new, 1), E(1, 0, 0)]), W([E(0, 1, 0), E(2, 1, b_old, 0), E(1, 1, 0)])])
+    if isinstance(f, AndroidRoot):
+        # directed: every root attribute value that needs XML escaping (&amp; &lt; &gt; &quot; " in '…', ' &apos; &#10; &#9; &#13;,
+        # non-ASCII, an escaped escape, the empty value) — single version, identical versions, two and three differing versions
+        def R(attrs, *ents):
+            return [("S", 0, tuple(attrs), 0, False)] + list(ents)
+        for v in range(len(f.ATTRS[6][1])):
+            a = R([(6, v)], E(0, 0, 0), E(1, 0, 0))
+            b = R([(6, v + 1), (7, v)], E(0, 1, 0), E(2, 1, 1))
+            c = R([(7, v + 1), (0, 0), (1, v), (6, v + 2)], E(1, 2, 0, 1), E(3, 2, 0))
+            cases += [[a], [a, a], [b, b, b], [a, b], [b, a], [a, b, c], [c, a, b]]
+        # KNOWN FINDING C15-android-root-attr-key-clash, one deterministic family per run: a root attribute named like a string
+        # (`<resources alpha="x">` with `<string name="alpha">`): same version, older version only, across versions …
+        cases.append([R([(f.CLASH, 0)], E(0, 0, 0), E(1, 0, 0))])
+        cases.append([R([(5, 0)], E(1, 0, 0)), R([(f.CLASH, 1)], E(0, 1, 0), E(1, 1, 0))])
+        cases.append([R([(f.CLASH, 0)], E(1, 0, 0)), R([], E(0, 1, 0), E(1, 1, 0))])
+        # … and the control: the same attribute where NO version has a string of that name is judged like any other case
+        cases.append([R([(f.CLASH, 0)], E(1, 0, 0), E(2, 0, 0)), R([(f.CLASH, 1), (5, 1)], E(2, 1, 0))])
     return cases, exhaustive
 
 
@@ -710,7 +781,8 @@ def run_format(ctx, f):
         canon = r["r"]["canon"] if "r" in r else "exc " + str(r.get("exc"))
         if bad:
             out.violations.append({"what": "%s: %s" % (tag, bad), "input": {"fmt": tag, "texts": ts, "versions": vs},
-                                   "output": r.get("r", {}).get("text"), "finding": None})
+                                   "output": r.get("r", {}).get("text"),
+                                   "finding": CLASH_FINDING if root_attr_key_clash(f, vs) else None})
             out.count("%s.violations" % tag)
             continue
         if tm is not None and tm != canon:
@@ -824,10 +896,6 @@ def run(ctx):
         ("inisection.other", "a.ini", ["[S]\na=1\n", "[O]\na=0\nb=2\n"]),
         # the C20 second-order effect (left=[0,1], right=[5,0,5,6]) as files: the older version repeats k5
         ("dupkey.older_repeats", "a.properties", ["k0=0\nk1=1\n", "k5=5\nk0=o\nk5=55\nk6=6\n"]),
-        # Android document wrapper, points outside the generated domain (candidate findings, see NOTES-C15 round 4)
-        ("android.rootattr.entity", "strings.xml", ['<?xml version="1.0" encoding="utf-8"?>\n<resources note="a &amp; b">\n<string name="a">A</string>\n</resources>\n']),
-        ("android.rootattr.quote", "strings.xml", ['<?xml version="1.0" encoding="utf-8"?>\n<resources note=\'say "hi"\'>\n<string name="a">A</string>\n</resources>\n']),
-        ("android.rootattr.keyclash", "strings.xml", ['<?xml version="1.0" encoding="utf-8"?>\n<resources foo="x">\n<string name="foo">A</string>\n</resources>\n']),
     ]
     pres = pool.pmap("impl.channels", "impl_probe", [[n, ts] for _, n, ts in probes], timeout=5.0)
     for (tag, n, ts), r in zip(probes, pres):
@@ -837,9 +905,6 @@ def run(ctx):
         if tag == "dupkey.older_repeats" and r.get("r") != "k5=55\nk0=0\nk6=6\nk1=1\n":
             out.disagreements.append({"op": "probe.dupkey.older_repeats", "impl": r.get("r", r.get("exc")),
                                       "model": "k5=55\nk0=0\nk6=6\nk1=1\n (diff_never_sees_duplicates: k6 after k0)"})
-        if tag.startswith("android.rootattr") and not same:
-            out.notes.append("CANDIDATE FINDING (outside the generated domain, not judged): %s — a junk-free single version is not "
-                             "returned parse-identically, the result is not well-formed XML" % tag)
     out.contracts["versions_with_adjacent_whitespace_entries"] = total_adj
     out.contracts["android_versions_whose_wrapper_keys_are_not_the_attribute_names"] = bad_wrappers
     if bad_wrappers:
